@@ -227,10 +227,10 @@ func (p *prover) norm1(v ssa.Value) lin {
 		n := calleeName(&x.Call)
 		switch n {
 		case "builtin:len":
-			return p.lenOf(x.Call.Args[0])
+			return p.lenOf(argsOf(x)[0])
 		case "builtin:min":
 			t := describe(v)
-			for _, a := range x.Call.Args {
+			for _, a := range argsOf(x) {
 				p.extra = append(p.extra, p.norm(a).add(linTerm(t), -1)) // a - r ≥ 0
 			}
 			return linTerm(t)
@@ -239,7 +239,7 @@ func (p *prover) norm1(v ssa.Value) lin {
 			t := describe(v)
 			r := linTerm(t)
 			p.extra = append(p.extra, r.add(linConst(1), 1))                                   // r + 1 ≥ 0
-			p.extra = append(p.extra, p.lenOf(x.Call.Args[0]).add(r, -1).add(linConst(1), -1)) // len - r - 1 ≥ 0
+			p.extra = append(p.extra, p.lenOf(argsOf(x)[0]).add(r, -1).add(linConst(1), -1)) // len - r - 1 ≥ 0
 			p.notes["contract: "+n+" returns -1 ≤ r < len(s)"] = true
 			return r
 		case "os.Getpagesize":
@@ -257,14 +257,14 @@ func (p *prover) norm1(v ssa.Value) lin {
 			t := describe(v)
 			r := linTerm(t)
 			p.nonneg[t] = true
-			p.extra = append(p.extra, p.lenOf(x.Call.Args[1]).add(r, -1))
+			p.extra = append(p.extra, p.lenOf(argsOf(x)[1]).add(r, -1))
 			p.notes["contract: runtime.Callers(skip, pcs) returns 0 ≤ n ≤ len(pcs)"] = true
 			return r
 		}
 		if p.minFuncs[n] || verifiedMinFuncs[n] {
 			t := describe(v)
 			allNN := true
-			for _, a := range x.Call.Args {
+			for _, a := range argsOf(x) {
 				la := p.norm(a)
 				p.extra = append(p.extra, la.add(linTerm(t), -1))
 				if !p.isNonneg(la) {
@@ -280,9 +280,9 @@ func (p *prover) norm1(v ssa.Value) lin {
 			// round(x, unit): x ≤ r ≤ x + unit - 1 (unit a power of two; no wrap assumed here, see C05.wrap)
 			t := describe(v)
 			r := linTerm(t)
-			xa := p.norm(x.Call.Args[0])
+			xa := p.norm(argsOf(x)[0])
 			p.extra = append(p.extra, r.add(xa, -1))
-			if u, ok := intConst(x.Call.Args[1]); ok {
+			if u, ok := intConst(argsOf(x)[1]); ok {
 				p.extra = append(p.extra, xa.add(linConst(u-1), 1).add(r, -1))
 			}
 			if isUnsigned(v.Type()) {
@@ -405,7 +405,7 @@ func (p *prover) factLin(f Fact) []lin {
 			switch calleeName(&c.Call) {
 			case "strings.HasPrefix", "strings.HasSuffix", "bytes.HasPrefix", "bytes.HasSuffix":
 				p.notes["contract: HasPrefix/HasSuffix(s, p) ⇒ len(p) ≤ len(s)"] = true
-				return []lin{p.lenOf(c.Call.Args[0]).add(p.lenOf(c.Call.Args[1]), -1)}
+				return []lin{p.lenOf(argsOf(c)[0]).add(p.lenOf(argsOf(c)[1]), -1)}
 			}
 		}
 		return nil
